@@ -627,8 +627,13 @@ func runC05(c *Ctx) {
 				for i, e := range x.Edges {
 					pb := x.Block().Preds[i]
 					// the edge that skips `if normalize { ... }` is dead when normalising
-					if ifi, ok := pb.Instrs[len(pb.Instrs)-1].(*ssa.If); ok && flag != nil && ifi.Cond == ssa.Value(flag) && pb.Succs[1] == x.Block() {
-						continue
+					if ifi, ok := pb.Instrs[len(pb.Instrs)-1].(*ssa.If); ok && pb.Succs[1] == x.Block() {
+						if flag != nil && ifi.Cond == ssa.Value(flag) {
+							continue
+						}
+						if holdsNormalizeFlag(p, ifi.Cond) {
+							continue
+						}
 					}
 					if !loweredAfter(e, depth+1) {
 						return false
@@ -765,6 +770,44 @@ func checkCleanedTextBuiltRuneByRune(c *Ctx, p *core.Prog) {
 
 // ---------------------------------------------------------------------------------------------
 // C06
+
+// holdsNormalizeFlag: v is a load of a boolean struct field every store into which (anywhere in v2) stores the normalize
+// parameter of tokenizeStream: the option travelling in a parameter struct instead of a parameter.
+func holdsNormalizeFlag(p *core.Prog, v ssa.Value) bool {
+	ld, ok := v.(*ssa.UnOp)
+	if !ok || ld.Op != token.MUL {
+		return false
+	}
+	fa, ok := ld.X.(*ssa.FieldAddr)
+	if !ok || !isBool(ld.Type()) {
+		return false
+	}
+	st := core.StructOf(fa.X.Type())
+	ts := p.Func(v2pkg, "tokenizeStream")
+	if st == nil || ts == nil || len(ts.Params) < 2 || !isBool(ts.Params[1].Type()) {
+		return false
+	}
+	n := 0
+	for _, g := range v2Funcs(p) {
+		for _, b := range g.Blocks {
+			for _, in := range b.Instrs {
+				s2, ok := in.(*ssa.Store)
+				if !ok {
+					continue
+				}
+				fa2, ok := s2.Addr.(*ssa.FieldAddr)
+				if !ok || fa2.Field != fa.Field || core.StructOf(fa2.X.Type()) != st {
+					continue
+				}
+				n++
+				if core.Unspill(s2.Val) != ssa.Value(ts.Params[1]) {
+					return false
+				}
+			}
+		}
+	}
+	return n > 0
+}
 
 func lettersLower(s string) bool {
 	if s == "" {
